@@ -99,7 +99,8 @@ def ctor(repo: Repo, tier):
                 cc.check_node_link_data(cls)
             cc.check_conversion("DynGraph", "to_directed", "DynDiGraph")
             cc.check_conversion("DynDiGraph", "to_undirected", "DynGraph")
-            from sa.ctor_check import check_event_replay, check_generate_interactions
+            from sa.ctor_check import check_event_replay, check_generate_interactions, check_reciprocal
+            check_reciprocal(cc, shapes=((1, 1), (1, 2), (2, 1)) if tier == "quick" else ((1, 1), (1, 2), (2, 1), (2, 2)))
             for cls in CLASSES:
                 check_event_replay(cc, cls)
                 check_generate_interactions(cc, cls)
@@ -110,10 +111,12 @@ def ctor(repo: Repo, tier):
     return _cache[key]
 
 
-def take_ctor(rep: Report, cc, prefixes, rule="O.constructors"):
+def take_ctor(rep: Report, cc, prefixes, rule="O.constructors", skip_keys=()):
     n = 0
     for k, f in sorted(cc.findings.items()):
         if not any(f["clause"].startswith(p) for p in prefixes):
+            continue
+        if f["key"] in skip_keys:
             continue
         n += 1
         rep.finding("%s/%s" % (rule, f["clause"]), f["construct"], f["key"],
